@@ -26,6 +26,7 @@ ASSUMPTIONS = ["jump counts are scripted (Poisson.sample replaced), everything e
 REQUIRED_COUNTERS = ["paths_checked", "fixed_date_paths", "jump_time_paths", "max_step_paths", "multi_date_paths",
                      "finer_grid_direct_calls", "coupled_paths", "paths_without_jump"]
 MIN_NONTRIVIAL = {"quick": 60, "thorough": 800}
+THOROUGH_ROUNDS = 20      # the thorough tier runs the generators this many times (different seeds)
 SHARD_TIMEOUT = {"quick": 900, "thorough": 7200}
 SIMS = ["direct", "chain", "coupling", "copula", "copula-coupling"]
 MODES = ["fixed", "jumptimes", "maxstep"]
